@@ -23,8 +23,7 @@ FEATS = [
 def one(spec, R, batch, stats, considered_mode):
     b = GR.build(spec)
     try:
-        decl = declared_grammar(list(b.classes.values()), b.start)     # declared weights, before any extraction
-        decl = GR.declared_from_spec(decl, spec)                        # ... as WRITTEN, not as the decorators stored them
+        decl = b.oracle()     # declared weights, before any extraction
         considered = b.considered if considered_mode == "all-classes" else \
             [c for c in b.considered if not any(x["name"] == c.__name__ and x["abstract"] for x in spec["classes"])]
         evs = []
